@@ -343,6 +343,14 @@ def policy_strategy(draw):
   # >= 8 suggestions after the first damaged request
   while sum(s_['count'] for s_ in steps[k:]) < 8:
     steps.append({'count': 4, 'fb': []})
+  # entries stay present but become undecodable (all of them / one of them);
+  # *deleting* entries is not generated: a designer cannot tell a deleted
+  # entry from one that was never written (eagle reads a missing version
+  # entry as "first call"), which is a different question from C14's
+  run['damage_style'] = draw(st.sampled_from(
+      ['lost_all', 'truncate_all']) | st.tuples(
+          st.sampled_from(['lost_one', 'truncate_one']),
+          st.integers(0, 7)).map(lambda t: '%s:%d' % t))
   seeds = draw(_seeds(K_SEEDS))
   run['seed'] = seeds[0]
   return {'run': run, 'seeds': seeds, 'envs': draw(envs(run['designer']))}
@@ -527,6 +535,14 @@ def gp_run(draw, max_params=3, designer=None):
 def gp_strategy(draw):
   draw(_not_simplest())
   run = draw(gp_run())
+  # entries stay present but become undecodable (all of them / one of them);
+  # *deleting* entries is not generated: a designer cannot tell a deleted
+  # entry from one that was never written (eagle reads a missing version
+  # entry as "first call"), which is a different question from C14's
+  run['damage_style'] = draw(st.sampled_from(
+      ['lost_all', 'truncate_all']) | st.tuples(
+          st.sampled_from(['lost_one', 'truncate_one']),
+          st.integers(0, 7)).map(lambda t: '%s:%d' % t))
   seeds = draw(_seeds(K_SEEDS))
   run['seed'] = seeds[0]
   return {'run': run, 'seeds': seeds, 'envs': draw(envs(run['designer']))}
@@ -703,7 +719,8 @@ def check_policy(case):
   run = case['run']
   item = {'kind': 'policy', 'run': run}
   _stream_classes(out, run)
-  out.cls('hosted_' + run['designer'])
+  out.cls('hosted_' + run['designer'],
+          'damage_' + run.get('damage_style', 'lost_all').split(':')[0])
   first = _pairs(out, 'R1/hosted', item, case['envs'])
   if first.get('error'):
     return out
